@@ -116,6 +116,13 @@ func goExpr(val gopast.Expr) ast.Expr {
 			Index:  goExpr(v.Index),
 			Rbrack: v.Rbrack,
 		}
+	case *gopast.IndexListExpr:
+		return &ast.IndexListExpr{
+			X:       goExpr(v.X),
+			Lbrack:  v.Lbrack,
+			Indices: goExprs(v.Indices),
+			Rbrack:  v.Rbrack,
+		}
 	case *gopast.ParenExpr:
 		return &ast.ParenExpr{
 			Lparen: v.Lparen,
@@ -173,9 +180,10 @@ func goExprs(vals []gopast.Expr) []ast.Expr {
 
 func goFuncType(v *gopast.FuncType) *ast.FuncType {
 	return &ast.FuncType{
-		Func:    v.Func,
-		Params:  goFieldList(v.Params),
-		Results: goFieldList(v.Results),
+		Func:       v.Func,
+		TypeParams: goFieldList(v.TypeParams),
+		Params:     goFieldList(v.Params),
+		Results:    goFieldList(v.Results),
 	}
 }
 
@@ -254,9 +262,10 @@ func goImportSpec(spec *gopast.ImportSpec) *ast.ImportSpec {
 
 func goTypeSpec(spec *gopast.TypeSpec) *ast.TypeSpec {
 	return &ast.TypeSpec{
-		Name:   goIdent(spec.Name),
-		Assign: spec.Assign,
-		Type:   goType(spec.Type),
+		Name:       goIdent(spec.Name),
+		TypeParams: goFieldList(spec.TypeParams),
+		Assign:     spec.Assign,
+		Type:       goType(spec.Type),
 	}
 }
 
